@@ -29,6 +29,10 @@ def gen_history(r):
     kinds = ("value", "key") if kc == "map" else ("value", "index")
     mk = G.map_doc if kc == "map" else G.list_doc
     probes = [mk(r, 2) for _ in range(3)]
+    if r.pct() < 3:
+        # one probe with several hundred items (size thresholds)
+        n_items = r.choice([257, 300])
+        probes[0] = [G.scalar(r) for _ in range(n_items)] if kc == "list" else {f"k{i}": G.scalar(r) for i in range(n_items)}
     prog = []
     n = r.between(4, 22)
     size = 0
@@ -50,7 +54,7 @@ def gen_history(r):
             prog.append(("same_op_null", r.below(size), r.below(size), r.choice(OPS), r.choice(OPS) if r.coin(40) else None, r.choice(["l", "r"])))
             size += 2
         elif c < 88:
-            k = r.between(0, 4)
+            k = r.between(0, 4) if r.pct() >= 4 else r.choice([101, 107, 130])  # rarely a very long operand list
             prog.append(("spec", r.choice(OPS), [r.below(size) for _ in range(k)], r.coin(30)))
             size += 1
         else:
